@@ -116,8 +116,23 @@ func (c *Ctx) loopWrites(fr *Frame, li *loopInfo) (cells map[interface{}]bool, f
 	}
 	// ghosts assigned by `after call ... set` clauses (any call of the loop may be the one: over-approximated)
 	if fr.fc != nil {
+		sites := c.V.callSites(fr.fn)
 		for _, cl := range fr.fc.Clauses {
-			if cl.Kind == "aftercallset" {
+			if cl.Kind != "aftercallset" {
+				continue
+			}
+			// only when a call the clause is about sits inside this loop
+			inLoop := false
+			for b := range li.body {
+				for _, in := range b.Instrs {
+					for _, sname := range sites[in] {
+						if cl.Site == sname || (strings.HasSuffix(cl.Site, "#*") && strings.HasPrefix(sname, strings.TrimSuffix(cl.Site, "*"))) {
+							inLoop = true
+						}
+					}
+				}
+			}
+			if inLoop {
 				whole["G_"+cl.Label] = true
 			}
 		}
